@@ -4,8 +4,8 @@ import BoxoModel.C14.Lemmas
 
 Property theorems only (vocabulary — `T.WF`, `Sub`, `SubK`, `Good` — and helpers: `BoxoModel/C14/Lemmas.lean`).
 The model mirrors `dagutils.Diff` / `ApplyChange` as they are.  The full property ("for any two trees,
-apply (diff a b) = b") is FALSE for this code; the proof attempt forces the hypothesis `Good a b`, and each
-excluded shape is a recorded known finding with a concrete counterexample proved below.
+apply (diff a b) = b") is FALSE for this code; it holds exactly on the class `Good` (`c14_apply_diff_iff`), and
+each excluded shape is a recorded known finding with a concrete counterexample proved below.
 All statements quantify over all trees (any depth, any fan-out, any data values).
 -/
 namespace C14
@@ -17,7 +17,8 @@ theorem c14_self (a : T) : diff a a = [] := by
 
 /-- ApplyChange(a, Diff(a, b)) = b for every pair of well-formed trees in the class `Good`:
 equal trees, or — the roots not both link-less — equal `data` at the roots and, recursively for every pair of
-children matched by name: equal, or both link-less, or equal `data` and the same condition below. -/
+children matched by name: equal, or reported as one Mod (either is a raw / non-ProtoNode node, or both are
+link-less), or equal `data` and the same condition below. -/
 theorem c14_apply_diff_partial (a b : T) (ha : a.WF) (hb : b.WF) (hg : Good a b) :
     applyAll a (diff a b) = some b := by
   rcases hg with rfl | ⟨hnl, hd, hs⟩
@@ -26,6 +27,25 @@ theorem c14_apply_diff_partial (a b : T) (ha : a.WF) (hb : b.WF) (hg : Good a b)
     · subst hab; rw [c14_self]; rfl
     · exact apply_diff_node a b ha hb hab hnl hd hs
 
+/-- The class is exact: for well-formed trees, ApplyChange(a, Diff(a, b)) = b **iff** `Good a b`.
+So the three known-finding shapes (a data difference at a matched node with links; a root pair reported as
+one Mod) are precisely the pairs for which the property fails. -/
+theorem c14_apply_diff_iff (a b : T) (ha : a.WF) (hb : b.WF) : applyAll a (diff a b) = some b ↔ Good a b := by
+  refine ⟨fun h => ?_, c14_apply_diff_partial a b ha hb⟩
+  by_cases hab : a = b
+  · exact Or.inl hab
+  · cases hmp : modPair a b with
+    | false =>
+      obtain ⟨h1, h2⟩ := conv_node a b ha hb hab hmp h
+      exact Or.inr ⟨hmp, h1, h2⟩
+    | true =>
+      cases a with
+      | n da ka =>
+        have hd : diff (.n da ka) b = [.mod [] (.n da ka) b] := by
+          simp only [diff, hab, if_false, hmp, if_true]
+        rw [hd] at h
+        simp [applyAll, apply1, rmAt] at h
+
 /-- the class is decidable: `goodB` (printed by the driver for every pair) decides it -/
 theorem c14_goodB_iff (a b : T) : goodB a b = true ↔ Good a b := goodB_iff a b
 
@@ -33,42 +53,8 @@ theorem c14_goodB_iff (a b : T) : goodB a b = true ↔ Good a b := goodB_iff a b
 Hence whenever the roots carry different data, `ApplyChange(a, cs) ≠ b` for every `cs` — the defect is in
 the output format of Diff, not in a particular change list. -/
 theorem c14_root_data_invariant (a : T) (cs : List Ch) (t : T) (h : applyAll a cs = some t) : t.data = a.data := by
-  have ins : ∀ (p : List Nat) (u c u' : T), insertAt u p c = some u' → u'.data = u.data := by
-    intro p u c u' h
-    cases u with
-    | n d k =>
-      match p, h with
-      | [], h => simp [insertAt] at h
-      | [name], h => simp only [insertAt, Option.some.injEq] at h; subst h; rfl
-      | name :: q :: qs, h =>
-        simp only [insertAt] at h
-        cases hf : k.find name with
-        | none => simp [hf] at h
-        | some sub =>
-          simp only [hf] at h
-          cases hi : insertAt sub (q :: qs) c with
-          | none => simp [hi] at h
-          | some s' => simp only [hi, Option.some.injEq] at h; subst h; rfl
-  have rm : ∀ (p : List Nat) (u u' : T), rmAt u p = some u' → u'.data = u.data := by
-    intro p u u' h
-    cases u with
-    | n d k =>
-      match p, h with
-      | [], h => simp [rmAt] at h
-      | [name], h =>
-        simp only [rmAt] at h
-        split at h
-        · simp only [Option.some.injEq] at h; subst h; rfl
-        · cases h
-      | name :: q :: qs, h =>
-        simp only [rmAt] at h
-        cases hf : k.find name with
-        | none => simp [hf] at h
-        | some sub =>
-          simp only [hf] at h
-          cases hi : rmAt sub (q :: qs) with
-          | none => simp [hi] at h
-          | some s' => simp only [hi, Option.some.injEq] at h; subst h; rfl
+  have ins := insertAt_data
+  have rm := rmAt_data
   induction cs generalizing a with
   | nil => simp only [applyAll, Option.some.injEq] at h; subst h; rfl
   | cons c cs ih =>
@@ -125,17 +111,11 @@ example : diff exA exB = [.mod [1] (.n 5 .nil) (.n 6 .nil), .rm [2, 4] (.n 2 .ni
     .rm [6] (.n 3 .nil), .add [9] (.n 1 (.cons 1 (.n 4 .nil) .nil))] := by decide
 example : applyAll exA (diff exA exB) = some exB := by decide
 example : Good exA exB := by
-  right
-  refine ⟨by decide, rfl, ?_⟩
-  simp only [exA, exB, T.kids, SubK, F.find]
-  refine ⟨?_, ?_, ?_, trivial⟩
-  · intro tb h; simp at h; subst h; simp [Sub, F.isNil, T.kids]
-  · intro tb h; simp at h; subst h
-    simp only [Sub, T.kids, T.data, SubK, F.find, F.isNil]
-    right; right
-    refine ⟨by simp, by simp, ?_, ?_, trivial⟩
-    · intro tb h; simp at h; subst h; simp
-    · intro tb h; simp at h
-  · intro tb h; simp at h
+  rw [← goodB_iff]; decide
+
+/-- raw leaves: a raw file replaced by another raw file, by a dag-pb file and by a directory are all in the class -/
+example : Good (.n 1 (.cons 1 (.n 1005 .nil) (.cons 2 (.n 1006 .nil) (.cons 3 (.n 1007 .nil) .nil))))
+    (.n 1 (.cons 1 (.n 1009 .nil) (.cons 2 (.n 4 .nil) (.cons 3 (.n 1 (.cons 1 (.n 1005 .nil) .nil)) .nil)))) := by
+  rw [← goodB_iff]; decide
 
 end C14
